@@ -44,6 +44,7 @@ type Engine struct {
 	fromMirror []string
 	axioms   []*Lemma
 	usedAxioms map[string]string
+	prop     string
 }
 
 func newEngine() *Engine {
@@ -299,8 +300,8 @@ func (eng *Engine) inlinable(f *ssa.Function) bool {
 	if f.Pkg == nil {
 		return false
 	}
-	if len(f.Blocks) == 0 && inlineDeps[f.Pkg.Pkg.Path()] {
-		f.Pkg.Build()
+	if len(f.Blocks) == 0 && (inlineDeps[f.Pkg.Pkg.Path()] || strings.HasPrefix(f.Pkg.Pkg.Path(), "github.com/apernet/hysteria")) {
+		f.Pkg.Build() // packages loaded only as dependencies have no bodies yet
 	}
 	if len(f.Blocks) == 0 {
 		return false
